@@ -3,6 +3,8 @@
 package main
 
 import (
+	"runtime"
+	"sync"
 	"bytes"
 	"fmt"
 	"math"
@@ -310,31 +312,14 @@ func cmdC0203(seed uint64, tier, outdir string) {
 	v3 := mustCreate(outdir, "c03.verdicts")
 	cw := mustCreate(outdir, "c0203.cases")
 	all := embeddedDocs()
-	doCase := func(bc *builtCorpus, in input) {
-		res, _, panicked := matchSafeR(bc.c, in.data)
-		cw.printf("%s thr=%v %s\n", in.name, bc.thr, quoteBytes(in.data, 300))
-		if panicked {
-			v2.printf("VIOL - panic on %s\n", in.name)
-			v3.printf("VIOL - panic on %s\n", in.name)
-			return
-		}
-		nt := 0
-		for _, m := range res.Matches {
-			if m.MatchType != "Copyright" {
-				nt = 1
-			}
-		}
-		if v := checkC02(bc.c, in.data, res, maxCells); v != "" {
-			v2.printf("VIOL - %s: %s\n", in.name, v)
-		} else {
-			v2.printf("OK %d\n", nt)
-		}
-		if v := checkC03(bc.c, bc.thr, in.data, res); v != "" {
-			v3.printf("VIOL - %s: %s\n", in.name, v)
-		} else {
-			v3.printf("OK %d\n", nt)
-		}
+	// cases are evaluated by a pool of workers (Match is safe for concurrent use; the word-level
+	// Levenshtein reference dominates the cost) and written in generation order
+	type job struct {
+		bc *builtCorpus
+		in input
 	}
+	var jobs []job
+	doCase := func(bc *builtCorpus, in input) { jobs = append(jobs, job{bc, in}) }
 	full := fullEmbedded()
 	for _, in := range baseInputs(r, n) {
 		doCase(full, in)
@@ -356,6 +341,52 @@ func cmdC0203(seed uint64, tier, outdir string) {
 		for _, in := range genericInputs(r, docs, n/4) {
 			doCase(bc, in)
 		}
+	}
+	type outc struct{ c2, c3 string }
+	outs := make([]outc, len(jobs))
+	var wg sync.WaitGroup
+	next := make(chan int, len(jobs))
+	for i := range jobs {
+		next <- i
+	}
+	close(next)
+	workers := runtime.NumCPU() - 2
+	if workers < 1 {
+		workers = 1
+	}
+	for w := 0; w < workers; w++ {
+		wg.Add(1)
+		go func() {
+			defer wg.Done()
+			for i := range next {
+				bc, in := jobs[i].bc, jobs[i].in
+				res, _, panicked := matchSafeR(bc.c, in.data)
+				if panicked {
+					outs[i] = outc{"VIOL - panic on " + in.name, "VIOL - panic on " + in.name}
+					continue
+				}
+				nt := 0
+				for _, m := range res.Matches {
+					if m.MatchType != "Copyright" {
+						nt = 1
+					}
+				}
+				o := outc{fmt.Sprintf("OK %d", nt), fmt.Sprintf("OK %d", nt)}
+				if v := checkC02(bc.c, in.data, res, maxCells); v != "" {
+					o.c2 = fmt.Sprintf("VIOL - %s: %s", in.name, v)
+				}
+				if v := checkC03(bc.c, bc.thr, in.data, res); v != "" {
+					o.c3 = fmt.Sprintf("VIOL - %s: %s", in.name, v)
+				}
+				outs[i] = o
+			}
+		}()
+	}
+	wg.Wait()
+	for i, j := range jobs {
+		cw.printf("%s thr=%v %s\n", j.in.name, j.bc.thr, quoteBytes(j.in.data, 300))
+		v2.printf("%s\n", outs[i].c2)
+		v3.printf("%s\n", outs[i].c3)
 	}
 	v2.close()
 	v3.close()
